@@ -1,11 +1,24 @@
 import json, os
-from .manifest_data import CLAIMED, NOT_YET
 from .env import VERIF
 
 BASE = "cd /repo && /venv/bin/python -m pytest -ra -q -p no:cacheprovider --timeout=900 --continue-on-collection-errors"
 
 
+def load():
+    d = os.path.join(VERIF, "harness", "manifest")
+    claimed, notyet = {}, {}
+    for fn in sorted(os.listdir(d)):
+        if fn.endswith(".json"):
+            j = json.load(open(os.path.join(d, fn)))
+            if j.get("not_applicable"):
+                notyet[fn[:-5]] = j["not_applicable"]
+            else:
+                claimed[fn[:-5]] = j
+    return claimed, notyet
+
+
 def main():
+    CLAIMED, NOT_YET = load()
     props = [json.loads(l)["id"] for l in open(os.path.join(VERIF, "properties.jsonl"))]
     checks = []
     for pid in props:
